@@ -57,6 +57,8 @@ func main() {
 		jobs = append(jobs, job(&lockh.LeaseScenario{Kind: "lapse", Lease: L, DiePhase: -1}, vsched.Config{P: pl, Preempt: fine, MaxSteps: 60000}))
 		for _, same := range []bool{true, false} {
 			jobs = append(jobs, job(&lockh.LeaseScenario{Kind: "diesout", Lease: L, SameLocker: same}, vsched.Config{P: pd, Preempt: fine, MaxSteps: 60000}))
+			// a renewal in flight during Unlock that fails transiently must not re-arm anything for the finished tenure
+			jobs = append(jobs, job(&lockh.LeaseScenario{Kind: "diesout", Lease: L, SameLocker: same, RenewFaults: true}, vsched.Config{P: pd - 1, F: 1, Preempt: fine, MaxSteps: 60000}))
 		}
 	}
 	sort.SliceStable(jobs, func(a, b int) bool { return jobs[a].Cfg.P+jobs[a].Cfg.F > jobs[b].Cfg.P+jobs[b].Cfg.F })
